@@ -140,4 +140,23 @@ def check_C15(ctx):
                   assumptions=TRUSTED)
 
 
-CHECKS = {"C11": check_C11, "C09": check_C09, "C16": check_C16, "C17": check_C17, "C15": check_C15}
+# --------------------------------------------------------------------------- C10
+
+def check_C10(ctx):
+    cases, _ = ctx.tlc_mc("MC_C10", mc_cfg({}, ["Decided", "OutputLaw", "OneBranchAtATime", "OutputIsPrefix",
+                                                 "IfUnlessDual", "EmitCase"]))
+    obs = ctx.run_cases(cases)
+    ctx.validate(obs)
+    if not ctx.quick:
+        gen_cases = ctx.gen("cond", 20000)
+        ctx.validate(ctx.run_cases(gen_cases))
+        ctx.exhaustive = False
+    return finish(ctx, rule="every case of the families chain (1-3 conditions over a 10-value universe, with/without else), "
+                            "dual (if vs unless), later (failing condition before/after the selected branch), case/when lists "
+                            "and nest of MC_C10, explored step by step by TLC against the declarative first-truthy definition, "
+                            "rendered by the implementation and trace-validated" +
+                            ("" if ctx.quick else "; plus seeded random nested conditionals (Go driver) validated by TraceRender"),
+                  assumptions=TRUSTED)
+
+
+CHECKS = {"C11": check_C11, "C09": check_C09, "C16": check_C16, "C17": check_C17, "C15": check_C15, "C10": check_C10}
